@@ -5,9 +5,16 @@
    functions are structurally recursive Gallina functions, so termination holds by
    construction. *)
 From Coq Require Import List NArith ZArith Bool.
-From Wpull Require Import Model.UrlLib Model.Url Proofs.UrlTotalProofs.
+From Wpull Require Import Model.UrlLib Model.Url Proofs.UrlTotalProofs Proofs.ConstsAgree Gen.Consts.
 Import ListNotations.
 Open Scope N_scope.
+
+(* The default-port table behind is_port_default / hostname_with_port / url (whose dictionary lookup must not miss) is
+   the one the source defines: Gen/Consts.v is regenerated from RELATIVE_SCHEME_DEFAULT_PORTS of wpull/url.py on every run. *)
+Theorem C11_default_ports_are_the_sources :
+  forall scheme, default_port scheme = assoc_str scheme gen_default_ports.
+Proof. exact url_default_ports_agree. Qed.
+Print Assumptions C11_default_ports_are_the_sources.
 
 (* For every input string, every encoder and every behaviour of the library oracles:
    a rejection by URLInfo.parse is a ValueError, a UnicodeError or an
